@@ -3,7 +3,7 @@ from functools import partial
 
 from . import engine
 from .rules import (tables, errflow, stop, scope, fold, hashorder, eqfield, cast, lock, witness, orpat, guard, parsepure,
-                    kernel, evalorder, layer, export, panic, misc)
+                    kernel, evalorder, layer, export, panic, misc, pairflowrule, variant)
 
 TRUST = ["rustc: type checking, MIR construction, Instance resolution, auto traits",
          "pest / pest_meta: PEG semantics, silent/atomic rule semantics, PrattParser precedence climbing",
@@ -47,7 +47,7 @@ prop("C01",
      "guard conditions are taken as written (a weakened but present condition is not detected)")
 
 prop("C02",
-     [partial(panic.run, name="R-PANIC"), errflow.run, stop.run, scope.run, orpat.run, lock.run, guard.run_execerror],
+     [partial(panic.run, name="R-PANIC"), errflow.run, stop.run, scope.run, orpat.run, lock.run, guard.run_execerror, variant.run],
      "Decides: the complete inventory of panic-capable sites (383 today) is matched per function and signature to a reviewed "
      "justification naming the check that discharges it (R-PANIC); no error or control signal is dropped (R-ERRFLOW); ExecStop is "
      "raised and caught only where the control-flow table says, with the documented routing (R-STOP); no callee declares into the "
@@ -59,14 +59,16 @@ prop("C02",
      "a frozen table turns every NEW panic-capable site into an alarm by design")
 
 prop("C03",
-     [tables.run_dispatch, tables.run_precedence, partial(panic.run, name="R-PANIC"), guard.run_mustcall, fold.run, errflow.run, parsepure.run],
+     [pairflowrule.run, tables.run_dispatch, tables.run_precedence, partial(panic.run, name="R-PANIC"), guard.run_mustcall, fold.run, errflow.run, parsepure.run, variant.run],
      "Decides: every alternative the grammar can hand to a pair-walking function has an arm there (R-TABLES-D: primary, line/stm/"
      "body, type, match_arm, int, var_from_str) and every operator rule is registered in the Pratt parser (R-TABLES); every "
      "panic-capable site on the parse path is a reviewed row (R-PANIC); Type queries are guarded by their admissibility test "
      "(R-MUSTCALL) and treat union members alike (R-FOLD); folding failures are propagated as errors, never unwrapped (R-ERRFLOW); "
-     "parsing never executes instructions (R-PARSEPURE). Child-sequence shape (unwrap of Option<Pair>) is carried as reviewed "
-     "grammar-shape rows.",
-     "grammar <-> dispatch-arm table agreement (pest_meta + MIR switch arms), panic inventory, must-call",
+     "parsing never executes instructions (R-PARSEPURE). R-PAIRFLOW: an abstract interpretation of all 64 Pair-walking "
+     "functions against the grammar's child-sequence automata (trace-partitioned per child label) shows that no unwrap of a child "
+     "pair can see None and no rule reaches a panicking default arm, for every child sequence the grammar generates; R-VARIANT: "
+     "wildcard arms over operator enums are dead.",
+     "abstract interpretation of MIR pair walkers vs grammar child automata; grammar <-> dispatch-arm agreement; panic inventory",
      "stack / memory exhaustion excluded by the property")
 
 prop("C04",
@@ -125,7 +127,7 @@ prop("C12",
      [stop.run, evalorder.run,
       partial(guard.run, only_variants=("BreakOutsideLoop", "ContinueOutsideLoop", "ReturnOutsideFunction", "WrongReturn",
                                         "MatchNotCovered", "WrongCondition", "MissingReturn")),
-      partial(tables.run_dispatch, only=("match_arm", "stm", "line", "body"))],
+      partial(tables.run_dispatch, only=("match_arm", "stm", "line", "body")), pairflowrule.run],
      "Decides: a single catch site per signal (Loop::exec for Break/Continue, Function::exec for Return) with the documented "
      "routing, sugared loops emit Break inside a Loop, in_loop set/restored/reset (R-STOP); placement and exhaustiveness guards "
      "exist and dominate success (R-GUARD); arm loop returns at the first cover, branches are exclusive (R-EVALORDER); all three "
@@ -168,7 +170,7 @@ prop("C17",
      "compile_fail witnesses, def-use on the operands of Type::matches, must-call", "")
 
 prop("C18",
-     [export.run, partial(panic.run, scope=STDLIB_SCOPE, name="R-PANIC"), cast.run],
+     [export.run, partial(panic.run, scope=STDLIB_SCOPE, name="R-PANIC"), cast.run, variant.run],
      "Decides for all 77 exports: declared parameter names = names the generated closure imports, in order; TypeOf type of each "
      "undecorated parameter = its TryInto target; TypeOf kind = kind tested by TryFrom<&Variable> (8 rows); error-struct keys "
      "agree; every panic-capable site under stdlib is a reviewed row (fs / io bodies have none); stdlib casts are listed with "
